@@ -153,7 +153,7 @@ def run_c19(tier, seed, write_evidence, only=None):
                                replay_cmd=f"{TVDUMP} replay {r['path']} {m['top']} <this file>"), open(rp, "w"), indent=1)
                 if kf:
                     known_lines.append(f"KNOWN-FINDING: property=C19 {kf['what']} ({key})")
-                else:
+                elif not any(v[1] == rp for v in violations):
                     violations.append((key, rp, out.get("first_diff")))
             else:
                 unconfirmed.append((r["label"], m["top"], "solver trace did not reproduce natively: " + json.dumps(out)[:200]))
